@@ -1099,7 +1099,7 @@ func replayCase(worker int, d caseDesc) ([]finding, error) {
 
 func TestCheck(t *testing.T) {
 	r := runner.Start("C15", "exploration")
-	deadline := r.Deadline(80*time.Second, 11*time.Minute)
+	deadline := r.Deadline(170*time.Second, 14*time.Minute) // caps for a loaded machine; ~10 s / ~40 s on 16 idle cores
 	c := &collector{findings: map[string]finding{}, tl: newTally()}
 
 	if !probeIngressShape(r) {
